@@ -131,6 +131,23 @@ def check_record(args):
             _, ll = listing(m)
             if ll != [x + 1 for x in exp]:
                 out['mism'].append(('load-listing', dict(args=args_, listed=ll, spec=[x + 1 for x in exp])))
+            # "loads each of those pulses exactly once", "both forms give identical results": the load terms of the
+            # matrix equal those of the same antenna with one separate single-pulse load per attached pulse
+            if len(exp) >= 2 and got == exp:
+                sep = ['--load=7+3j'] * len(exp) + ['--attach-load=%d,%d' % (i_ + 1, x + 1) for i_, x in enumerate(exp)]
+                ms, txt = run_main(base + ['--excitation-pulse=1'] + sep)
+                if not isinstance(ms, Mininec):
+                    out['mism'].append(('valid-load-rejected', dict(args=sep, msg=txt[:200])))
+                else:
+                    dd = []
+                    for mm in (m, ms):
+                        mm.Z = np.zeros((N, N), dtype=complex)
+                        mm.compute_impedance_matrix_loads()
+                        dd.append(np.array(mm.Z))
+                        mm.Z = None
+                    if not np.allclose(dd[0], dd[1], rtol=1e-13, atol=0):
+                        bad = [int(x) for x in np.nonzero(~np.isclose(np.diag(dd[0]), np.diag(dd[1]), rtol=1e-13, atol=0))[0]]
+                        out['mism'].append(('load-terms-differ-from-single-pulse-loads', dict(args=args_, pulses=bad)))
         # ---- a distributed load given for ONE object covers every pulse with a half segment on that object
         #      (its own rows and the junction pulses other objects own at its ends), each exactly once ----
         for o in range(len(opulses)):
